@@ -9,6 +9,7 @@ import (
 	"sync"
 	"sync/atomic"
 	"testing"
+	"time"
 
 	vk "github.com/cbeuw/Cloak/internal/verifkit"
 	"pgregory.net/rapid"
@@ -44,7 +45,7 @@ func c18GrowRun(sc c18Grow) (res vk.Result, err error) {
 		}
 		return u
 	}
-	var created atomic.Int64
+	var created, listings atomic.Int64
 	var stop atomic.Bool
 	var mu sync.Mutex
 	var firstErr error
@@ -68,6 +69,7 @@ func c18GrowRun(sc c18Grow) (res vk.Result, err error) {
 					fail(vk.Violatef("listing answered %d", code))
 					return
 				}
+				listings.Add(1)
 				var list []json.RawMessage
 				if jerr := json.Unmarshal(body, &list); jerr != nil {
 					fail(vk.Violatef("listing is not valid JSON: %v", jerr))
@@ -96,7 +98,46 @@ func c18GrowRun(sc c18Grow) (res vk.Result, err error) {
 			}
 		}()
 	}
-	for i := 0; i < sc.Users && !stop.Load(); i++ {
+	finished := make(chan struct{})
+	go func() {
+		defer close(finished)
+		c18GrowWriter(sc.Users, uidOf, e, &created, &stop, fail)
+		stop.Store(true)
+		wg.Wait()
+	}()
+	// liveness: requests must keep being answered. No progress for 10 s while every goroutine inside the code under
+	// test is blocked in the same place in two dumps is a deadlock; slowness alone is never a verdict
+	last, lastChange, start := int64(-1), time.Now(), time.Now()
+wait:
+	for {
+		select {
+		case <-finished:
+			break wait
+		case <-time.After(200 * time.Millisecond):
+		}
+		if p := created.Load() + listings.Load(); p != last {
+			last, lastChange = p, time.Now()
+			continue
+		}
+		if time.Since(lastChange) > 10*time.Second {
+			if ok, where := vk.StuckForGood(time.Second); ok && created.Load()+listings.Load() == last {
+				// the stuck goroutines (and the database they hold) are abandoned
+				return res, vk.ViolateSig("api-deadlock", "the user-management API stopped answering while users were being added and listed (%d created, %d listings so far; no progress for %v): %s", created.Load(), listings.Load(), time.Since(lastChange).Round(time.Second), where)
+			}
+		}
+		if time.Since(start) > 8*time.Minute {
+			return res, fmt.Errorf("harness: the run did not finish within 8 minutes but is not provably stuck (inconclusive)")
+		}
+	}
+	if firstErr != nil {
+		return res, firstErr
+	}
+	res.Labels = append(res.Labels, fmt.Sprintf("users=%d", sc.Users))
+	return res, nil
+}
+
+func c18GrowWriter(users int, uidOf func(int) []byte, e *c18Env, created *atomic.Int64, stop *atomic.Bool, fail func(error)) {
+	for i := 0; i < users && !stop.Load(); i++ {
 		uid := uidOf(i)
 		body, _ := json.Marshal(map[string]interface{}{"UID": uid, "SessionsCap": int32(1), "UpRate": 1, "DownRate": 1, "UpCredit": 1000 + i, "DownCredit": 5, "ExpiryTime": 99})
 		if code, rb := e.do("POST", "/admin/users/"+base64.URLEncoding.EncodeToString(uid), body); code/100 != 2 {
@@ -105,13 +146,6 @@ func c18GrowRun(sc c18Grow) (res vk.Result, err error) {
 		}
 		created.Add(1)
 	}
-	stop.Store(true)
-	wg.Wait()
-	if firstErr != nil {
-		return res, firstErr
-	}
-	res.Labels = append(res.Labels, fmt.Sprintf("users=%d", sc.Users))
-	return res, nil
 }
 
 func TestVerif_C18_ListWhileGrowing(t *testing.T) {
